@@ -175,7 +175,13 @@ fn unhide(paths: &[String]) {
 
 impl<'p> SessExec<'p> {
     fn sel_thunk(&self, h: u32) -> Option<usize> {
-        if self.thunks.is_empty() { None } else { Some(h as usize % self.thunks.len()) }
+        if self.thunks.is_empty() {
+            None
+        } else if h == crate::reqs::LAST_THUNK {
+            Some(self.thunks.len() - 1)
+        } else {
+            Some(h as usize % self.thunks.len())
+        }
     }
     fn sel_value(&self, h: u32) -> Option<usize> {
         if self.values.is_empty() { None } else { Some(h as usize % self.values.len()) }
